@@ -344,6 +344,13 @@ func docStreams(c *Ctx, o docOpts, f func(stream string, doc []byte)) {
 	for i := 0; i < o.random; i++ {
 		f("random-tokens", randDoc(c.R, tok))
 	}
+	// every inline/block snippet in every block context (systematic), then random pairs of those
+	if o.random > 0 || o.corpus {
+		matrixDocs(func(d []byte) { f("context-x-content", d) })
+		for i := 0; i < o.random/4; i++ {
+			f("context-x-content-pairs", matrixPair(c.R))
+		}
+	}
 	// documents assembled from the extension constructs
 	for i := 0; i < o.random/2; i++ {
 		f("extension-constructs", extDoc(c.R))
@@ -627,6 +634,74 @@ func extDoc(r *RNG) []byte {
 	}
 	if r.Intn(3) == 0 {
 		sb.WriteString("\n[r]: /ref 'T'\n")
+	}
+	return []byte(sb.String())
+}
+
+// ---------- every snippet in every context ----------
+// The misses of the seeded batch E were all interactions of two features (a footnote reference in
+// a surplus table cell, a reference definition as a definition-list term, unmatched strikethrough
+// openers inside emphasis, a typographic run of three, a multi-line title rendered later, an
+// escaped pipe in a code span followed by a rejected table).  This stream places every snippet of
+// matrixContents into every hole of matrixContexts.
+var matrixContexts = []string{
+	"%s\n", "# %s\n", "%s\n===\n", "%s\n---\n", "> %s\n", "- %s\n", "1. %s\n", "- a\n  - %s\n", "> - %s\n", "- > %s\n",
+	"| %s | x |\n|---|---|\n| y | z |\n", "| h | x |\n|---|:-:|\n| %s | z |\n", "| h |\n|---|\n| a | %s |\n", "| h | i |\n|---|---|\n| %s |\n", "h|i\n-|-\n%s|b\n",
+	"| %s | def |\n| --- |\nbar\n", "| a |\n| --- |\n| %s |\n\n# sep\n\n| abc | def |\n| --- |\nbar\n",
+	"[^1]: %s\n\n[^1]\n", "x[^n]\n\n[^n]: %s\n", "[^n]: a\n\n    %s\n\nx[^n]\n",
+	"term\n: %s\n", "%s\n: desc\n", "a\n: b\n\n%s\n: c\n", "a\n\n: %s\n\n: d\n",
+	"- [ ] %s\n", "- [x] %s\n", "1. [ ] %s\n",
+	"[%s](/u)\n", "![%s](/u)\n", "*%s*\n", "**%s**\n", "~~%s~~\n", "~%s~\n", "[%s][r]\n", "[%s]\n", "\"%s\"\n", "'%s'\n", "<div>%s</div>\n", "<span>%s</span>\n", "<div>\n%s\n</div>\n",
+	"```\n%s\n```\n", "    %s\n", "`%s`\n", "``%s``\n",
+	"a\n%s\nb\n", "%s  \nnext\n", "%s\\\nnext\n", "a %s b\n", "a%sb\n",
+	"## %s {#id .c}\n", "%s {#i}\n===\n", "> %s\n> %s\n", "- %s\n- %s\n",
+}
+
+var matrixContents = []string{
+	"[^1]", "[^1] [^1]", "[^u]", "![^1]", "[^1][^1]", "x[^1]y", "[^1]: z",
+	"[a]: /u", "[a]: /u \"t\"", "[a]: <u v> 't'", "[b]: /first\n[b]: /second", "[a]",
+	"`\\|`", "`a|b`", "\\|", "a \\| b", "`x\\|y` z", "`` ` ``", "`a", "a`",
+	"*a ~b* *c ~d* e *f", "*a ~b* *c ~d* *e ~f*", "**a ~~b** c~~", "_a *b_ c*", "*a [b*](u)", "~a *b~ c*", "*a **b* c**", "***a** b*", "*a _b* c_ *d", "~~a ~b~~ c~", "__a__b", "a*b*c", "a_b_c", "*", "**", "~", "~~", "~~~a~~~",
+	"<<<", ">>>", "<<<<", "<<", ">>", "--", "---", "----", "...", "....", "'''", "\"\"\"", "'a'", "\"a\"", "a's", "<<a>>", "<<<a>>>", "'", "\"", "1'2\"", "a--b---c",
+	"http://a.b/c", "www.a.b", "a@b.c", "http://a.b/c).", "www.a.b,", "<http://a.b>", "http://a.b/?q=`x`", "https://a.b/c_d_e", "www.a.b/(c)", "mailto:a@b.c", "ftp://a.b", "http://a.b/&amp;", "http://a.b/<c>", "xhttp://a.b", "http://é.b",
+	"<b>", "</b>", "<!-- c -->", "<script>", "<script>alert(1)</script>", "&amp;", "&#60;", "&lt;script&gt;", "&#0;", "&#xD800;", "&bogus;", "<a href=\"x\">", "<?p?>", "<![CDATA[x]]>", "<!D>",
+	"[l](/u \"multi\nline\")", "[l](/u 'a\nb')", "![i](/u \"m\nn\")", "[l](<a b> (t))", "[l]( /u )", "[l]()", "[l](<>)", "[l](/u \"a\\\"b\")", "[l][]", "[l][r]", "![i][r]", "[l\nm][r]", "[r]",
+	"a  \nb", "a\\\nb", "a\nb", "a \nb", "a\\\\\nb",
+	"javascript:alert(1)", "[x](javascript:alert(1))", "<javascript:x>", "![x](data:text/html,x)", "[x](JAVASCRIPT:a)", "[x](file:///e)", "[x](data:,x)", "[x](vbscript:x)", "[x](java&#115;cript:a)", "[x](data:image/png;x)", "<file:///a>", "<data:,y>",
+	"{#i}", "{.c k=v}", "[x]{onclick=a}", "{", "}", "{#i", "{k=\"v\"}",
+	"漢字", "あ\nい", "é", "\xff", "\x00", "\xc3", "a\xe2\x80\xa8b",
+	"[ ]", "[x]", ":", "| a |", "|", "||", "a||", "a | b | c", "-", "--- | ---", "=", "#", "# a", "> a", "- a", "1. a", "1) a", "***", "```", "~~~", "    a", "\ta", "<div>", "</div>",
+	"\\*a\\*", "\\\\", "\\", "a\\", "\\[a\\]", "\\`", "\\<b>",
+	"", " ", "a", "A A", "a-1", "a a",
+}
+
+func matrixDocs(f func([]byte)) {
+	trailer := "\n[^1]: note\n\n[r]: /ref\n\n[a]: /early 'T'\n"
+	for i, cx := range matrixContexts {
+		for j, ct := range matrixContents {
+			d := strings.ReplaceAll(cx, "%s", ct)
+			if (i+j)%2 == 0 {
+				d += trailer
+			}
+			f([]byte(d))
+		}
+	}
+}
+
+func matrixBlock(r *RNG) string {
+	return strings.ReplaceAll(r.PickS(matrixContexts), "%s", r.PickS(matrixContents))
+}
+
+func matrixPair(r *RNG) []byte {
+	var sb strings.Builder
+	for k := 2 + r.Intn(2); k > 0; k-- {
+		sb.WriteString(matrixBlock(r))
+		if r.Intn(6) != 0 {
+			sb.WriteString("\n")
+		}
+	}
+	if r.Intn(2) == 0 {
+		sb.WriteString("\n[^1]: note\n\n[r]: /ref\n\n[a]: /early 'T'\n")
 	}
 	return []byte(sb.String())
 }
